@@ -5,9 +5,11 @@
   abandoned), whose steps are the functions of Model/StreamingSound.lean that the twin runs, for EVERY decoder
   (no contract is assumed unless said: a decoder may fail at any call), every schedule, over ℝ.
 
-  Two clauses of the property are FALSE of the code and are proved false here with witnesses
-  (`C10_thread_never_ends_when_abandoned`, `C10_busy_spin_after_error`); the true parts are the
-  `_partial` theorems next to them.  Both are reproduced on the real code by the `decthread` suite.
+  Two clauses of the property used to be FALSE of the code (the thread of an abandoned sound never ended; the
+  loop spun on a failed decoder) and were proved false here with witnesses. Both defects are repaired in kira
+  (`run` ends on `frame_producer.is_abandoned()`; the `Err` arm of the loop `break`s after reporting); the
+  model mirrors the repaired code and the clauses are now proved at full strength: `C10_thread_ends`,
+  `C10_no_busy_spin`. The old witness scenarios are kept as non-vacuity examples at the end of the file.
 -/
 import KiraModel.Proofs.DecThreadLemmas
 
@@ -17,25 +19,48 @@ open Dec (Decoder)
 
 /-! ### the thread ends -/
 
-/-- **A Stopped sound's decoder thread ends within 3 of its own atomic steps (≤ 2 loop iterations)**, whatever else
-    happens in between: from ANY state in which the sound is Stopped (stopped through the handle, played to its
-    end, failed, start time that can never come — however it got there), every schedule that gives the decoder thread
-    as many steps as its program counter is away from the loop exit (`rank`: 1 at the loop top, 3 right after a
-    failed `run`, 2 between the error push and the flag store) ends with the thread gone — decoder released —,
-    and the sound still Stopped. Partial with respect to the property's list of triggers: *rejected by a full track*
-    and *discarded with its track or manager* are not among them — see `C10_thread_never_ends_when_abandoned`. -/
-theorem C10_thread_ends_partial {σ : Type} (D : Decoder σ ℝ) (fuel : Nat) (l : St σ ℝ) (xs : List (Label ℝ))
-    (hstopped : IsStopped l.sys) (hsteps : 3 ≤ countD xs) :
-    (runSched D fuel l xs).pc.gone = true ∧ IsStopped (runSched D fuel l xs).sys := by
-  apply runSched_stopped_ends D fuel xs l hstopped
-  have : l.pc.rank ≤ 3 := by cases l.pc <;> simp [Pc.rank]
-  omega
+/-- **The decoder thread ends within 2 of its own atomic steps once there is any reason for it to end**, whatever else
+    happens in between. In every reachable state `l` of a freshly split sound in which
+    * the sound is Stopped (stopped through the handle, played to its end, failed, start time that can never come —
+      however it got there), or
+    * the decoder has reached the end of the data, or
+    * the sound was dropped — refused by a full track (`into_sound` had already spawned the thread) or discarded
+      together with its track or the manager —, or
+    * a `run` has failed (the thread is between the failing `run` and its `break`) or the error flag is set,
+    every schedule `xs` — any interleaving of audio callbacks, handle calls, drops — that gives the decoder thread 2 of
+    its own steps ends with the thread gone: it has left its loop, the scheduler and with it the decoder are
+    released. The bound 2 is attained (right after a failed `run`: error push, then flag store + `break`; see the
+    examples at the end); at the loop top 1 step is enough (`C10_thread_ends_rank`). The reason to end never goes
+    away (`Ending` holds of the final state as well). -/
+theorem C10_thread_ends {σ : Type} (D : Decoder σ ℝ) (fuel : Nat) (sys0 : Sys σ ℝ) (h0 : Fresh sys0)
+    (l : St σ ℝ) (hr : Reachable D fuel sys0 l) (xs : List (Label ℝ))
+    (hwhy : IsStopped l.sys ∨ l.sys.reachedEnd = true ∨ l.sys.soundDropped = true ∨
+      (∃ e, l.pc = .errPending e) ∨ l.pc = .flagPending ∨ l.sys.encounteredError = true)
+    (hsteps : 2 ≤ countD xs) :
+    (runSched D fuel l xs).pc.gone = true ∧ Ending (runSched D fuel l xs) := by
+  have hE : Ending l := by
+    rcases hwhy with h | h | h | ⟨e, h⟩ | h | h
+    · exact Or.inl h
+    · exact Or.inr (Or.inr (by rw [(inv_reachable D fuel sys0 h0 l hr).endEnded h]; intro h'; cases h'))
+    · exact Or.inr (Or.inl h)
+    · exact Or.inr (Or.inr (by rw [h]; intro h'; cases h'))
+    · exact Or.inr (Or.inr (by rw [h]; intro h'; cases h'))
+    · exact Or.inr (Or.inr (by rw [(once_reachable D fuel sys0 h0 l hr).flagEnded h]; intro h'; cases h'))
+  exact runSched_ending_ends D fuel xs l hE (Nat.le_trans (Pc.rank_le_two l.pc) hsteps)
 
-/-- … and sharper: the number of its own steps the thread needs is its distance from the loop exit -/
+/-- … from ANY state (reachable or not) for the three reasons that need no history: Stopped, dropped, or the thread
+    has left its loop top after a failed `run`; and sharper: the number of its own steps the thread needs is its
+    distance from the loop exit (`rank`: 1 at the loop top, 2 right after a failed `run`, 1 between the error push
+    and the flag store) -/
 theorem C10_thread_ends_rank {σ : Type} (D : Decoder σ ℝ) (fuel : Nat) (l : St σ ℝ) (xs : List (Label ℝ))
-    (hstopped : IsStopped l.sys) (hsteps : l.pc.rank ≤ countD xs) :
+    (hwhy : IsStopped l.sys ∨ l.sys.soundDropped = true ∨ l.pc ≠ .top) (hsteps : l.pc.rank ≤ countD xs) :
     (runSched D fuel l xs).pc.gone = true :=
-  (runSched_stopped_ends D fuel xs l hstopped hsteps).1
+  (runSched_ending_ends D fuel xs l hwhy hsteps).1
+
+/-- a Stopped sound stays Stopped through every schedule (so does a dropped one stay dropped: `Ending`) -/
+theorem C10_stopped_stays_stopped {σ : Type} (D : Decoder σ ℝ) (fuel : Nat) (l : St σ ℝ) (xs : List (Label ℝ))
+    (hstopped : IsStopped l.sys) : IsStopped (runSched D fuel l xs).sys :=
+  runSched_stopped D fuel xs l hstopped
 
 /-- **End of data**: in every reachable state in which the decoder has reached the end of the data, its thread has
     already ended — `run` stores `reached_end` and returns `End` in the same step (0 further steps). -/
@@ -43,82 +68,108 @@ theorem C10_thread_ends_at_end_of_data {σ : Type} (D : Decoder σ ℝ) (fuel : 
     (l : St σ ℝ) (hr : Reachable D fuel sys0 l) (hend : l.sys.reachedEnd = true) : l.pc = .ended :=
   (inv_reachable D fuel sys0 h0 l hr).endEnded hend
 
-/-- **The thread of an abandoned sound never ends** (the full statement of the property is false). A one-frame
-    looping sound over a decoder that never fails: `into_sound` has spawned the thread; the track refuses the sound
-    (or is dropped with it) and the handle is dropped — `[abandon, hDrop]`; then for EVERY schedule whatsoever the
-    decoder thread is still at the top of its loop: it never ends, its decoder is never released. (Nothing is left
-    that could set `Shared.state` to Stopped; with a looping sound the data never ends either. A non-looping long
-    sound ends up asleep on a full ring for ever in the same way.) Reproduced on the real code: `rt reject`,
-    `rt trackdrop`, `rt mgrdrop` of suite `decthread` (thread count stays +1). -/
-theorem C10_thread_never_ends_when_abandoned :
-    ∃ sys0, Sys.new oneDecoder loopData = .ok sys0 ∧
-      ∀ (fuel : Nat) (xs : List (Label ℝ)),
-        (runSched oneDecoder (fuel + 1) (St.init sys0) (.abandon :: .hDrop :: xs)).pc = .top ∧
-        (runSched oneDecoder (fuel + 1) (St.init sys0) (.abandon :: .hDrop :: xs)).pc.gone = false := by
-  refine ⟨_, loop_new, fun fuel xs => ?_⟩
-  have h0 : Abandoned (runSched oneDecoder (fuel + 1) (St.init (loopSys [⟨Frame.zero, 0⟩] ds0)) [.abandon, .hDrop]) :=
-    ⟨rfl, rfl, rfl, _, ds0, Or.inl rfl, rfl⟩
-  have := abandoned_run fuel xs _ h0
-  have hpc := this.1
-  have e : runSched oneDecoder (fuel + 1) (St.init (loopSys [⟨Frame.zero, 0⟩] ds0)) (.abandon :: .hDrop :: xs)
-      = runSched oneDecoder (fuel + 1) (runSched oneDecoder (fuel + 1) (St.init (loopSys [⟨Frame.zero, 0⟩] ds0)) [.abandon, .hDrop]) xs := rfl
-  rw [e, hpc]
-  exact ⟨rfl, rfl⟩
+/-- **An abandoned sound's thread ends at its very next step** (this used to be false: the thread filled the ring and
+    then woke every millisecond for ever, holding the decoder). From ANY state with the thread at its loop top: the
+    sound is refused by a full track / discarded with its track or manager (`abandon`), then any schedule whatsoever
+    that lets the decoder thread run once — the thread is gone. -/
+theorem C10_thread_ends_when_abandoned {σ : Type} (D : Decoder σ ℝ) (fuel : Nat) (l : St σ ℝ) (hpc : l.pc = .top)
+    (hplace : l.place = .inTrack) (xs : List (Label ℝ)) (hsteps : 1 ≤ countD xs) :
+    (runSched D fuel l (.abandon :: xs)).pc.gone = true := by
+  have hs : step D fuel l .abandon = some { l with place := .abandoned, sys := { l.sys with soundDropped := true } } := by
+    simp only [step, hplace, if_true]
+  simp only [runSched, hs, Option.getD_some]
+  apply C10_thread_ends_rank D fuel _ xs (Or.inr (Or.inl rfl))
+  show l.pc.rank ≤ countD xs
+  rw [hpc]; exact hsteps
 
 /-! ### no busy spinning -/
 
-/-- **Every loop iteration whose `run` does not fail pushes a frame, sleeps, or ends** (`Continue` ⇒ exactly one
-    more frame in the ring; `Wait` ⇒ the 1 ms sleep; `End` ⇒ `break`). The full statement ("never busy-spins while it
-    has nothing to do") is false after an error: `C10_busy_spin_after_error`. -/
-theorem C10_no_busy_spin_partial {σ : Type} (D : Decoder σ ℝ) (fuel : Nat) (s : Sys σ ℝ) :
+/-- **Every iteration of the decoder loop pushes a frame, sleeps, or is the last one.** Whenever the decoder thread
+    takes a step from its loop top (one whole `run` and the `Ok` arm of the `match`), in ANY state, exactly one of:
+    * `Continue`: the thread is back at the top and the frame ring holds exactly one more frame (it had something to
+      do and did it);
+    * `Wait`: the thread is back at the top after the 1 ms sleep (ghost counter `slept` + 1), nothing changed;
+    * otherwise (`End`, `Err`, panic) the thread has left the loop top FOR GOOD: it is never at the top again —
+      `run`, hence the decoder, is never called again — and it is gone after at most 2 more of its own steps,
+      whatever the schedule.
+    In particular a failing decoder is called exactly once more: there is no iteration that does nothing and
+    comes back at once (this used to be false after an error). -/
+theorem C10_no_busy_spin {σ : Type} (D : Decoder σ ℝ) (fuel : Nat) (l l' : St σ ℝ) (hpc : l.pc = .top)
+    (hs : dStep D fuel l = some l') :
+    (l'.pc = .top ∧ l'.sys.ring.len = l.sys.ring.len + 1 ∧ l'.slept = l.slept) ∨
+    (l'.pc = .top ∧ l'.slept = l.slept + 1 ∧ l'.sys = l.sys) ∨
+    (l'.pc ≠ .top ∧ (∀ xs, (runSched D fuel l' xs).pc ≠ .top) ∧
+      ∀ xs, 2 ≤ countD xs → (runSched D fuel l' xs).pc.gone = true) := by
+  have F := run_facts D fuel l.sys
+  have hfull : (Sys.run D fuel l.sys).1 = .ok .wait → (Sys.run D fuel l.sys).2 = l.sys := run_wait D fuel l.sys
+  have hoff : ∀ l'' : St σ ℝ, l''.pc ≠ .top → (∀ xs, (runSched D fuel l'' xs).pc ≠ .top) ∧
+      ∀ xs, 2 ≤ countD xs → (runSched D fuel l'' xs).pc.gone = true := fun l'' h =>
+    ⟨fun xs => runSched_keeps D fuel (fun l => l.pc ≠ .top) (fun a b x h hs => step_offTop D fuel a b x h hs) xs l'' h,
+     fun xs hx => (runSched_ending_ends D fuel xs l'' (Or.inr (Or.inr h)) (Nat.le_trans (Pc.rank_le_two _) hx)).1⟩
+  simp only [dStep, hpc] at hs
+  generalize hr : Sys.run D fuel l.sys = r at hs F hfull
+  obtain ⟨o, s'⟩ := r
+  simp only [] at hs F hfull
+  cases o with
+  | ok n =>
+    cases n with
+    | «continue» =>
+      simp only [] at hs; injection hs with hs; subst hs
+      exact Or.inl ⟨rfl, F.pushed rfl, rfl⟩
+    | wait =>
+      simp only [] at hs; injection hs with hs; subst hs
+      exact Or.inr (Or.inl ⟨rfl, rfl, hfull rfl⟩)
+    | «end» =>
+      simp only [] at hs; injection hs with hs; subst hs
+      exact Or.inr (Or.inr ⟨(by intro h; cases h), hoff _ (by intro h; cases h)⟩)
+  | err e =>
+    simp only [] at hs; injection hs with hs; subst hs
+    exact Or.inr (Or.inr ⟨(by intro h; cases h), hoff _ (by intro h; cases h)⟩)
+  | fault f =>
+    simp only [] at hs; injection hs with hs; subst hs
+    exact Or.inr (Or.inr ⟨(by intro h; cases h), hoff _ (by intro h; cases h)⟩)
+
+/-- the same, said of the function the twin runs for one loop iteration (`threadIter` = `run` + the `match` of
+    `DecodeScheduler::start`): `Continue` ⇒ exactly one more frame in the ring; `Wait` ⇒ the 1 ms sleep; everything
+    else is the thread's last iteration — `End` ⇒ `break`; `Err(e)` ⇒ error reported (flag set), `break`; a panic
+    unwinds -/
+theorem C10_no_busy_spin_iteration {σ : Type} (D : Decoder σ ℝ) (fuel : Nat) (s : Sys σ ℝ) :
     match (Sys.threadIter D fuel s).1 with
     | .continue => (Sys.threadIter D fuel s).2.ring.len = s.ring.len + 1
     | .sleep => (Sys.run D fuel s).1 = .ok .wait
     | .ended => (Sys.run D fuel s).1 = .ok .end
-    | .erred => ∃ e, (Sys.run D fuel s).1 = .err e
+    | .erred => (∃ e, (Sys.run D fuel s).1 = .err e) ∧ (Sys.threadIter D fuel s).2.encounteredError = true
     | .panicked => ∃ f, (Sys.run D fuel s).1 = .fault f := by
   have F := run_facts D fuel s
   unfold Sys.threadIter
   generalize Sys.run D fuel s = r at F
   obtain ⟨o, s'⟩ := r
   cases o with
-  | ok n => cases n <;> simp only [] <;> first | exact F.pushed rfl | rfl
-  | err e => exact ⟨e, rfl⟩
+  | ok n => cases n <;> first | exact F.pushed rfl | rfl
+  | err e => exact ⟨⟨e, rfl⟩, rfl⟩
   | fault f => exact ⟨f, rfl⟩
 
-/-- **After an error the loop spins.** A sound whose decoder fails and whose `process` is not being called (its
-    track is paused, or it was abandoned): every loop iteration returns an error, pushes no frame, does not sleep and
-    does not end — and leaves the thread in a state of the same kind, for ever. Reproduced on the real code:
-    `rt error …` (decoder called again after the first error) and `rt errpaused` (thousands of calls in 30 ms,
-    sound still Playing) of suite `decthread`. -/
-theorem C10_busy_spin_after_error (fuel : Nat) :
-    ∀ (n : Nat), ∃ er flag,
-      (fun s => (Sys.threadIter failDecoder (fuel + 1) s).2)^[n] (spinSys (Ring.new errorBufferCapacity) false) = spinSys er flag ∧
-      (Sys.threadIter failDecoder (fuel + 1) (spinSys er flag)).1 = .erred ∧
-      (Sys.threadIter failDecoder (fuel + 1) (spinSys er flag)).2.ring = (spinSys er flag).ring ∧
-      (spinSys er flag).handleState = .playing := by
-  intro n
-  induction n with
-  | zero =>
-    obtain ⟨er', h⟩ := spin_iter fuel (Ring.new errorBufferCapacity) false
-    exact ⟨_, _, rfl, by rw [h], by rw [h]; rfl, rfl⟩
-  | succ n ih =>
-    obtain ⟨er, flag, h1, _, _, _⟩ := ih
-    obtain ⟨er', h⟩ := spin_iter fuel er flag
-    obtain ⟨er'', h'⟩ := spin_iter fuel er' true
-    refine ⟨er', true, ?_, by rw [h'], by rw [h']; rfl, rfl⟩
-    rw [Function.iterate_succ_apply', h1, h]
+/-- **After the first error the decoder is never called again, and a set error flag means the thread is gone.** In
+    every reachable state: once any `run` has returned an error the thread is not at its loop top (the only place
+    `run` is called from) and never will be again; and `encountered_error` is stored in the very step that `break`s. -/
+theorem C10_no_decoder_call_after_error {σ : Type} (D : Decoder σ ℝ) (fuel : Nat) (sys0 : Sys σ ℝ) (h0 : Fresh sys0)
+    (l : St σ ℝ) (hr : Reachable D fuel sys0 l) :
+    (l.firstErr ≠ none → ∀ xs, (runSched D fuel l xs).pc ≠ .top) ∧
+    (l.sys.encounteredError = true → l.pc = .ended) := by
+  have O := once_reachable D fuel sys0 h0 l hr
+  exact ⟨fun h xs => runSched_keeps D fuel (fun l => l.pc ≠ .top) (fun a b x h hs => step_offTop D fuel a b x h hs) xs l
+    (O.errOnce h), O.flagEnded⟩
 
 /-! ### an error stops the sound and reaches the handle -/
 
 /-- **An error at any call position sets the flag.** Whenever `run` returns `Err(e)` — first packet, mid-stream,
     inside a seek command: the theorem does not care where — the decoder thread's next two steps push `e` into the
-    error ring (if its single slot is free) and store the error flag, and the thread is back at its loop top. -/
+    error ring (if its single slot is free) and store the error flag, and with that the thread has ended (`break`). -/
 theorem C10_error_sets_flag {σ : Type} (D : Decoder σ ℝ) (fuel : Nat) (l : St σ ℝ) (e : Wav.Err) (hpc : l.pc = .top)
     (herr : (Sys.run D fuel l.sys).1 = .err e) :
     ∃ l1 l2 l3, dStep D fuel l = some l1 ∧ l1.pc = .errPending e ∧
       dStep D fuel l1 = some l2 ∧ l2.pc = .flagPending ∧ l2.sys = l1.sys.pushError e ∧
-      dStep D fuel l2 = some l3 ∧ l3.pc = .top ∧ l3.sys.encounteredError = true ∧
+      dStep D fuel l2 = some l3 ∧ l3.pc = .ended ∧ l3.sys.encounteredError = true ∧
       (l.sys.errRing.items = [] → l.sys.errRing.cap = 1 → l3.sys.errRing.items = [e]) := by
   have F := run_facts D fuel l.sys
   generalize hr : Sys.run D fuel l.sys = r at herr F
@@ -127,7 +178,7 @@ theorem C10_error_sets_flag {σ : Type} (D : Decoder σ ℝ) (fuel : Nat) (l : S
   subst herr
   refine ⟨{ l with sys := s', pc := .errPending e, firstErr := match l.firstErr with | some f => some f | none => some e },
     { l with sys := s'.pushError e, pc := .flagPending, firstErr := match l.firstErr with | some f => some f | none => some e },
-    { l with sys := (s'.pushError e).setErrorFlag, pc := .top, iters := l.iters + 1, firstErr := match l.firstErr with | some f => some f | none => some e },
+    { l with sys := (s'.pushError e).setErrorFlag, pc := .ended, iters := l.iters + 1, firstErr := match l.firstErr with | some f => some f | none => some e },
     (by simp only [dStep, hpc, hr]; rfl), rfl, rfl, rfl, rfl, rfl, rfl, rfl, ?_⟩
   intro h1 h2
   show ((s'.pushError e).setErrorFlag).errRing.items = [e]
@@ -231,17 +282,39 @@ theorem C10_frames_lost_while_starving {σ : Type} (fuel : Nat) (hfuel : 2 ≤ f
   obtain ⟨s', h1, h2⟩ := trickle_all_lost fuel hfuel t dt ys s hstarved
   exact ⟨s', h1, h2.empty⟩
 
-/-! ### non-vacuity -/
+/-! ### non-vacuity (and the two scenarios that used to be the witnesses of the defects) -/
 
-/-- a reachable state in which the sound is Stopped while the thread still has all three steps to go: the hypotheses
-    of `C10_thread_ends_partial` are satisfiable (and its bound 3 is attained) -/
-example : ∃ l : St Unit ℝ, IsStopped l.sys ∧ l.pc.rank = 3 :=
+/-- a state in which the sound is Stopped while the thread still has both steps to go: the reasons of
+    `C10_thread_ends_rank` are satisfiable and its bound 2 is attained -/
+example : ∃ l : St Unit ℝ, IsStopped l.sys ∧ l.pc.rank = 2 :=
   ⟨{ sys := { spinSys (Ring.new errorBufferCapacity) true with core := (spinSys (Ring.new errorBufferCapacity) true).core.markStopped }
      pc := .errPending .sym, place := .inTrack, handle := true, iters := 0, slept := 0, firstErr := some .sym, pops := 0 },
    by
      have := StaticSound.markStopped_isStopped (spinSys (Ring.new errorBufferCapacity) true).core
      exact ⟨by simp [Psm.playbackState, this.1], this.2⟩,
    rfl⟩
+
+/-- the scenario of the former `C10_thread_never_ends_when_abandoned`: a one-frame looping sound over a decoder that
+    never fails is refused by its track and its handle dropped — `[abandon, hDrop]` —: now every schedule that lets
+    the decoder thread run once more ends with the thread gone (before the repair: at its loop top for ever) -/
+example : ∃ sys0, Sys.new oneDecoder loopData = .ok sys0 ∧ Fresh sys0 ∧
+    ∀ (fuel : Nat) (xs : List (Label ℝ)), 1 ≤ countD xs →
+      (runSched oneDecoder (fuel + 1) (St.init sys0) (.abandon :: .hDrop :: xs)).pc.gone = true := by
+  refine ⟨_, loop_new, ⟨rfl, rfl, rfl, rfl⟩, fun fuel xs hx => ?_⟩
+  exact C10_thread_ends_when_abandoned oneDecoder (fuel + 1) (St.init _) rfl rfl (.hDrop :: xs) hx
+
+/-- the scenario of the former `C10_busy_spin_after_error`: a playing sound whose decoder fails at every call and
+    whose `process` is never called (its track is paused). The thread's first iteration fails; two more of its steps
+    and it is gone, the error is in the handle's ring, the flag is set — the decoder was called once. (What remains:
+    `handle.state()` still says Playing until the track resumes and `process` turns the flag into Stopped.) -/
+example (fuel : Nat) : ∃ l3 : St Unit ℝ,
+    runSched failDecoder (fuel + 1) (St.init (spinSys (Ring.new errorBufferCapacity) false)) [.dStep, .dStep, .dStep] = l3 ∧
+    l3.pc = .ended ∧ l3.sys.errRing.items = [.sym] ∧ l3.sys.encounteredError = true ∧ l3.firstErr = some .sym ∧
+    l3.sys.ring = (spinSys (Ring.new errorBufferCapacity) false).ring ∧ l3.sys.handleState = .playing := by
+  have hrun := spin_run fuel (Ring.new errorBufferCapacity) false
+  refine ⟨_, rfl, ?_⟩
+  simp only [runSched, step, dStep, St.init, hrun, Option.getD_some]
+  refine ⟨?_, ?_, ?_, ?_, ?_, ?_⟩ <;> trivial
 
 /-- a starved state exists (the looping sound with its ring run dry, rate 1 on a device at the sound's rate) -/
 example : Starved (loopSys [] ds0) 1 :=
